@@ -217,6 +217,10 @@ def run(ctx: Ctx, rep: Report) -> None:
             rep.check(ok, "C04-R3", meth.site(), "set returns the value the agent confirmed for the OID that was set", f"{[norm(r.value) for r in rets]}", key=f"{meth.key}|extraction")
             continue
         exact = exact_length_summary(ctx, target)
+        if not exact and target.name == "multiget":
+            # the evaluated contract of multiget says the same: n values for n requested positions, or an exception
+            verdicts = fetcher_eval(ctx).results.get("multiget")  # type: ignore[attr-defined]
+            exact = bool(verdicts) and all(v[0] for v in verdicts)
         subs = [n for n in own_nodes(meth.node) if isinstance(n, ast.Subscript) and isinstance(n.value, ast.Name) and n.value.id == res and isinstance(n.slice, ast.Constant)]
         for sub in subs:
             if exact and sub.slice.value == 0:
